@@ -120,11 +120,12 @@ CLAIMED.update({
         text=("C04_quote_roundtrip and C04_script_equiv (the shell reads the generated script as exactly the intended rm commands, for every "
               "file name and any number of entries), C04_files_exact / C04_folders_exact / C04_symlink_never_queued (for every tree with distinct "
               "sibling names, keep set and depth the unlink queue is exactly the unkept regular files and the rmdir queue exactly the non-root "
-              "directories without kept content or symlinks), C04_wipe_decision, C04_empty_tree_allowed, C04_kept_not_queued, C04_symlink_kept are "
+              "directories without kept content or symlinks), C04_exec_exact (running the queues succeeds and leaves exactly the survivors), "
+              "C04_queued_inside, C04_kept_survives, C04_wipe_decision, C04_empty_tree_allowed, C04_kept_not_queued, C04_symlink_kept are "
               "proved; the recursive scan model, its execution and the property's survivor predicate are compared with the real "
               "PathCleaner.clean() on random trees with hostile names/symlinks/keep sets/ratios and on all trees with <= 3 (thorough: 4) "
               "nodes; generated scripts are run by /bin/sh and bash and must produce the autoclean tree."),
-        note="Not proved (checked by executing the queues): that the post-order rmdir queue never meets a non-empty directory. Float vs exact ratio comparison assumed equal below 2^50 bytes. Trusted: Lean kernel, model, harness, real sh/bash for script execution.",
+        note="C04_exec_exact: executing the two queues in order never meets a non-empty directory and leaves exactly the specified survivors (trees with distinct sibling names). Float vs exact ratio comparison assumed equal below 2^50 bytes. Trusted: Lean kernel, model, harness, real sh/bash for script execution.",
         design="6/C04"),
 })
 
@@ -177,13 +178,15 @@ CLAIMED.update({
 
 CLAIMED.update({
     "C09": dict(
-        technique="Lean 4 proof of the building blocks of the two line machines (exact field-name recognition, stanza flush, final blank line, filter and ignore semantics) + three-way differential check: real parsers / Lean line-machine model / independent stanza-based reference parser, through all compressions and the mmap path",
+        technique="Lean 4 proof: whole-index refinement for Packages (line machine = stanza-level specification, induction over stanzas, fields and continuation lines) and the building blocks of the two line machines (exact field-name recognition, stanza flush, final blank line, filter and ignore semantics) + three-way differential check: real parsers / Lean line-machine model / independent stanza-based reference parser, through all compressions and the mmap path",
         text=("C09_prefix_exact (a line `name: ...` passes startswith(key+':') iff name = key, so prefix/extension field names are inert), "
-              "C09_continuation_inert, C09_blank_flushes / C09_blank_skips, C09_final_flush, C09_filter_spec, C09_ignore_exact are proved; "
+              "C09_continuation_inert, C09_blank_flushes / C09_blank_skips, C09_final_flush, C09_filter_spec, C09_ignore_exact and "
+              "C09_packages_refines / C09_packages_empty (for every sequence of well-formed stanzas - any field order, decoy and multi-line "
+              "fields, blank separators, missing final newline - PackagesParser's line machine yields exactly the per-stanza specification) are proved; "
               "grammar-generated Packages/Sources indices (field order, multi-line fields, decoy fields, 1-3 separators, missing final "
               "newline, 1-4 checksum sections, filters, ignore_errors) are parsed by the real parsers, the Lean model and a reference "
               "parser and the three results must be equal."),
-        note="PARTIAL: the whole-index refinement `machine (render stanzas) = spec stanzas` is checked three-way, not proved as one theorem; decompression, mmap and readline are exercised, not modelled. Models the code after the F-C09a fix. Trusted: Lean kernel, model, harness reference parser.",
+        note="PARTIAL: the whole-index refinement is proved for Packages only; for Sources (hash sections, file lines) it is checked three-way; decompression, mmap and readline are exercised, not modelled. Models the code after the F-C09a fix. Trusted: Lean kernel, model, harness reference parser.",
         design="6/C09"),
 })
 
